@@ -83,11 +83,12 @@ type RawRange struct {
 // Case is one generated CMap (chain).  Layers[0] is the CMap under test,
 // Layers[1] its parent, Layers[2] the grandparent.
 type Case struct {
-	Kind    string     `json:"kind"` // "cid", "tu", "cid-raw", "tu-raw", "ops"
+	Kind    string     `json:"kind"` // "cid", "tu", "cid-raw", "tu-raw", "ops", "predef"
 	Layers  []Layer    `json:"layers"`
 	Notdef  *Notdef    `json:"notdef,omitempty"`
 	Raw     []RawRange `json:"raw,omitempty"`
-	Ops     []Op       `json:"ops,omitempty"` // kind "ops": operation sequence over several Files
+	Predef  *PredefOp  `json:"predef,omitempty"` // kind "predef": clone of a predefined CMap, remapped
+	Ops     []Op       `json:"ops,omitempty"`    // kind "ops": operation sequence over several Files
 	Probes  []gen.Hex  `json:"probes,omitempty"`
 	Pretty  bool       `json:"pretty"`
 	Version int        `json:"version"` // index into versions
